@@ -57,7 +57,7 @@ from vgi_rpc.rpc._transport import UnixTransport
 
 PROPERTY = "C33"
 LEVEL = "exploration"
-QUICK_RUNS = 1200
+QUICK_RUNS = 3000
 THOROUGH_RUNS = 80_000
 QUICK_BUDGET_S = 100
 THOROUGH_BUDGET_S = 1500
@@ -211,7 +211,7 @@ def gen_scenario(ch: Any) -> dict[str, Any]:
 
 
 def run(ctx: RunCtx) -> None:
-    if ctx.ch.weighted([2, 1], "part") == 0:
+    if ctx.ch.weighted([1, 1], "part") == 0:
         run_accept_loop(ctx)
     else:
         run_launcher(ctx)
@@ -223,7 +223,7 @@ def run_accept_loop(ctx: RunCtx) -> None:
     idle, maxc, grace = sc["idle"], sc["maxc"], sc["grace"]
     ctx.sample = sc
     ctx.case_key = ("a", idle, maxc, tuple((c["t"], c["hold"], c["pre"], c["post"]) for c in sc["clients"]))
-    sched = Scheduler(ch, ctx.log, trace_files={T.__file__}, preempt_budget=3, horizon=2500, time_leap=True, start_delays=(0.4, 2.5, 90.0),
+    sched = Scheduler(ch, ctx.log, trace_files={T.__file__}, preempt_budget=3, horizon=2500, time_leap=True, start_delays=(0.4, 2.5, 90.0), sync_preempts=2, sync_odds=8,
                       wall_limit=60.0)
     H: dict[str, Any] = {
         "conns": {},  # fd -> record
@@ -552,7 +552,7 @@ ARGVS = [("python", "-m", "worker_a"), ("python", "-m", "worker_b")]
 def gen_launch_scenario(ch: Any) -> dict[str, Any]:
     idle = L_IDLES[ch.choose(len(L_IDLES), "l.idle")]
     n = 2 + ch.choose(2, "l.n")
-    two = ch.choose(3, "l.two_hashes") == 2
+    two = ch.choose(2, "l.two_hashes") == 1
     ls: list[dict[str, Any]] = []
     for k in range(n):
         kinds = ["early", "grace"] + [f"after{j}" for j in range(k)]
@@ -573,7 +573,10 @@ def gen_launch_scenario(ch: Any) -> dict[str, Any]:
     for i in range(6):
         plan.append({"delay": [0.0, 0.4, 5.0][ch.weighted([4, 2, 1], f"w{i}.delay")], "noise": bool(ch.choose(2, f"w{i}.noise")),
                      "exit_early": ch.chance(1, 8, f"w{i}.exit")})
-    return {"idle": idle, "launchers": ls, "plan": plan}
+    # what an idle exit leaves behind: a <hash>.meta without a worker.  Every launch()'s opportunistic GC pass looks at the
+    # OTHER commands' entries, so a stale entry is what makes two launches of different commands touch the same files
+    stale = [h for h in (0, 1) if ch.choose(3, f"stale{h}") == 1]
+    return {"idle": idle, "launchers": ls, "plan": plan, "stale_meta": stale}
 
 
 def run_launcher(ctx: RunCtx) -> None:
@@ -584,7 +587,8 @@ def run_launcher(ctx: RunCtx) -> None:
     sc = gen_launch_scenario(ch)
     ctx.sample = {"part": "b", **sc}
     ctx.case_key = ("b", repr(sc))
-    sched = Scheduler(ch, ctx.log, trace_files={L.__file__, T.__file__}, preempt_budget=3, horizon=4000, time_leap=True, start_delays=(0.4, 2.5, 90.0),
+    sched = Scheduler(ch, ctx.log, trace_files={L.__file__, T.__file__}, preempt_budget=3, horizon=4000, time_leap=True, start_delays=(0.4, 2.5, 90.0), sync_preempts=2, sync_odds=8,
+                      stall_delays=(0.3, 7.0),
                       wall_limit=60.0)
     simtime = SimTime(sched)
     w = sl.LWorld(sched, ch, ctx.log, simtime)
@@ -695,6 +699,11 @@ def run_launcher(ctx: RunCtx) -> None:
 
     def root() -> None:
         ts = []
+        if sc["stale_meta"]:
+            w.mkdir("/run/vgi", True, True)
+            for h in sc["stale_meta"]:
+                w.write_file(f"/run/vgi/{L.compute_hash(ARGVS[h])}.meta", '{"argv": [], "stale": true}')
+                ch.fault("stale-meta-entry")
         for k in range(len(sc["launchers"])):
             t = sched.spawn(launcher_body, k, name=f"launcher{k}")
             t.tags["pid"] = 100 + k
